@@ -27,7 +27,7 @@ M = [
  ("C05-index-update-no-lock", "store/index/index.go", "	indexKey := stripBucketPrefix(key, idx.sizeBits)\n\n	idx.bucketLk.Lock()\n	defer idx.bucketLk.Unlock()\n	records, err := idx.getRecordsFromBucket(bucket)\n	if err != nil {\n		return err\n	}\n\n	var newData []byte", "	indexKey := stripBucketPrefix(key, idx.sizeBits)\n\n	records, err := idx.getRecordsFromBucket(bucket)\n	if err != nil {\n		return err\n	}\n	idx.bucketLk.Lock()\n	defer idx.bucketLk.Unlock()\n\n	var newData []byte", ["C05", "C16"]),
  ("C06-no-stale-retry", "store/store.go", "const maxStaleLookups = 8", "const maxStaleLookups = 0", ["C06"]),
  ("C06-index-get-no-retry", "store/index/index.go", "const maxStaleReads = 8", "const maxStaleReads = 0", ["C06"]),
- ("C06-gc-update-no-keylock", "store/store.go", "	unlockKey := s.lockKey(indexKey)\n	defer unlockKey()\n	return s.index.UpdateIfAt(indexKey, prevOffset, location)", "	return s.index.UpdateIfAt(indexKey, prevOffset, location)", ["C06"]),
+ ("C06-gc-update-no-keylock", "store/store.go", "	unlockKey := s.lockKey(indexKey)\n	defer unlockKey()\n	return s.index.UpdateIfAt(indexKey, prevOffset, location)", "	return s.index.UpdateIfAt(indexKey, prevOffset, location)", ["C13", "C06"]),
  ("C06-unconditional-relocation", "store/index/index.go", "	if r.Block.Offset != prevOffset {", "	if false && r.Block.Offset != prevOffset {", ["C06", "C04"]),
  ("C08-findkeypos-ge", "store/index/recordlist.go", "		if bytes.Compare(record.Key, key) == 1 {\n			pos = record.Pos\n			return\n		}", "		if bytes.Compare(record.Key, key) >= 0 {\n			pos = record.Pos\n			return\n		}", ["C08", "C01"]),
  ("C08-remove-nextpos", "store/index/index.go", "	newData := records.PutKeys([]KeyPositionPair{}, r.Pos, r.NextPos())\n	// NOTE: We are removing", "	newData := records.PutKeys([]KeyPositionPair{}, r.Pos, min(r.NextPos()+FileOffsetBytes+FileSizeBytes+KeySizeBytes+1, records.Len()))\n	// NOTE: We are removing", ["C08", "C01"]),
